@@ -20,13 +20,16 @@ RULE = ("MAF texts (header pragmas, column line, 0-7 data lines) read through Ma
         "Variant_Type: the record has a validation error but all its key columns); lines are handed to the reader "
         "bare, LF- or CRLF-terminated; the extra column of scheme-less files is last, first or absent (so that a key "
         "column can be the last one); the iteration is driven by a `for` loop, by next(it), by it.next() or by "
-        "iter(iter(reader)) (which must be the same iterator); observed: records yielded (their accessor values) and how the loop ended; "
+        "iter(iter(reader)) (which must be the same iterator); a share of the scheme-less files is wide (255-300 "
+        "filler columns before the key columns, so that these sit right of column index 256); barcodes include "
+        "digit-only texts (\"9\", \"10\", \"007\"), which stay text under the typed scheme; observed: records yielded (their accessor values) and how the loop ended; "
         "non-trivial = at least two records in the file and a sortable order declared or at least one record "
         "yielded; distinct by hash of the case")
 ASSUMPTIONS = [
     "header lines are ASCII; stringency Silent or Lenient (Strict turns header diagnostics into exceptions before iteration, C16/C17)",
     "data lines parse to records whose key columns have the values the case states (checked per record by the accessor echo); parsing itself is C01/C16",
     "a line with the wrong number of fields yields a record with no columns, which is falsy: the checker does not compare it with its successor (reported, outside the property's well-formed records)",
+    "MafReader.__iter__ builds a fresh checker on every call: `for r in reader: break` followed by a second `for r in reader` is not checked across the two loops; one iteration per reader is what is modelled",
 ] + [
     "values reaching a key are None, int or str; position text is ASCII",
     "integer-like chromosome names under a typed scheme are canonical decimals",
@@ -157,7 +160,8 @@ def _gen_one(rng):
     other = "last"
     if not typed and names and rng.random() < 0.5:
         other = rng.choice(["first", "none"])
-    colnames = C.GDC_NAMES if typed else [c for c, _ in _with_other({"other": other}, [[nm, None] for nm, _ in names])]
+    pad = rng.choice([255, 256, 257, 258, 300]) if (not typed and rng.random() < 0.08) else 0
+    colnames = C.GDC_NAMES if typed else [c for c, _ in _with_other({"other": other, "pad": pad}, [[nm, None] for nm, _ in names])]
     if typed:
         # an invalid value in a column the key does not use: the record keeps all its key columns
         descs = [(dict(d, f=dict(d["f"], **rng.choice([{"strand": "?"}, {"vtype": "XYZ"}, {"strand": "", "vtype": "snp?"}])))
@@ -173,7 +177,7 @@ def _gen_one(rng):
             w = w[k:] + w[:k]
         warm = w
     return {"stream": stream, "typed": typed, "header": header, "declared": declared, "names": colnames, "rows": descs,
-            "warm": warm, "other": other, "eol": eol, "iter": rng.choice(["for", "for", "next", "dotnext", "iter"])}
+            "warm": warm, "other": other, "eol": eol, "pad": pad, "iter": rng.choice(["for", "for", "next", "dotnext", "iter"])}
 
 
 def generate(rng, n):
@@ -215,6 +219,17 @@ def corpus():
         # the same data read first under another contig list in the same interpreter
         dict(_ucase(["#sort.order Coordinate", "#contigs chr1,chr2,chr10"], ["Coordinate", ["chr1", "chr2", "chr10"]],
                     [["chr1", "9", "9"], ["chr2", "1", "1"], ["chr10", "1", "1"]]), warm=["chr10", "chr2", "chr1"]),
+        # wide scheme-less file: key columns right of column index 256 are still keyed
+        dict(_ucase(["#sort.order Coordinate"], ["Coordinate", None], [["chr1", "9", "9"], ["chr1", "10", "10"], ["chr1", "2", "2"]]),
+             pad=258, names=[n for n, _ in C.pad_cols(258)] + [C.N_CHROM, C.N_START, C.N_END, "Other"]),
+        dict(_ucase(["#sort.order BarcodesAndCoordinate"], ["BarcodesAndCoordinate", None],
+                    [["9", "chr1", "9"], ["10", "chr1", "1"]], names=(C.N_TUMOR, C.N_CHROM, C.N_START)),
+             pad=257, names=[n for n, _ in C.pad_cols(257)] + [C.N_TUMOR, C.N_CHROM, C.N_START, "Other"]),
+        # digit-only barcodes under the typed scheme are text: "10" sorts before "9"
+        _tcase(["#sort.order BarcodesAndCoordinate"], ["BarcodesAndCoordinate", None],
+               [dict(tumor="10", chrom="1", start="5", end="5"), dict(tumor="9", chrom="1", start="5", end="5"), dict(tumor="T1", chrom="1", start="5", end="5")]),
+        _tcase(["#sort.order BarcodesAndCoordinate"], ["BarcodesAndCoordinate", None],
+               [dict(tumor="9", chrom="1", start="5", end="5"), dict(tumor="10", chrom="1", start="5", end="5")]),
         # the same outcome however the iteration is driven
         dict(_ucase(["#sort.order Coordinate"], ["Coordinate", None], [["chr1", "9", "9"], ["chr1", "10", "10"], ["chr1", "2", "2"]]), iter="dotnext"),
         dict(_ucase(["#sort.order Coordinate"], ["Coordinate", None], [["chr1", "9", "9"], ["chr1", "10", "10"], ["chr1", "2", "2"]]), iter="iter"),
@@ -253,20 +268,22 @@ def shrink(case):
 
 
 # ------------------------------------------------------------ files
-def _with_other(case, cols):
+def _with_other(case, cols, full=True):
     where = case.get("other", "last")
     if where == "first":
-        return [["Other", "x"]] + cols
-    if where == "none":
-        return list(cols)
-    return cols + [["Other", "x"]]
+        cols = [["Other", "x"]] + cols
+    elif where != "none":
+        cols = cols + [["Other", "x"]]
+    # wide files: filler columns first (one of them is enough for the model)
+    pad = case.get("pad") or 0
+    return (C.pad_cols(pad) if full else C.pad_cols(min(pad, 1))) + list(cols)
 
 
 def _desc(case, d):
     if d["kind"] == "short":
         return {"kind": "untyped", "cols": []}
     if d["kind"] == "untyped":
-        return {"kind": "untyped", "cols": _with_other(case, d["cols"])}
+        return {"kind": "untyped", "cols": _with_other(case, d["cols"], full=False)}
     return d
 
 
